@@ -14,7 +14,8 @@ import ast
 
 from ..astutil import calls_in, call_name, where
 from ..cfg import build_cfg, enclosing_handlers
-from ..logic import known
+from ..dataflow import def_value, node_defs, reaching_defs
+from ..logic import known, reach_avoiding
 from ..symtext import Expander
 from ..model import AnalysisError, unparse, walk_no_nested
 from .rules_order import compute_before_open, is_write_open
@@ -203,15 +204,31 @@ def publish_after_finalize(prog, rep, cls, cname, rule="ORDER-5"):
     rep.check(len(pub) == 1 and len(parse) == 1 and len(fin) == 1, rule, "%s._load: parse, finalize, publish" % cname, "ok",
               "%s._load no longer has exactly one parse, one finalize and one publishing store" % cname, f.where)
     if len(pub) == 1 and len(parse) == 1 and len(fin) == 1:
-        docvar = unparse(parse[0].ast.targets[0]) if isinstance(parse[0].ast, ast.Assign) else "?"
-        ok_var = unparse(fin[0].ast) == "%s.finalize()" % docvar and unparse(pub[0].ast.value) == docvar
-        # publish happens after finalize on every path where finalize ran: finalize is not reachable from the publish,
-        # and every path to the publish passes the parse call
-        ordered = g.dominates(parse[0], pub[0]) and not g.reaches(pub[0], fin[0], skip_kinds=("exc",)) and \
-            g.reaches(fin[0], pub[0], skip_kinds=("exc",))
-        # a path parse -> publish that skips finalize may exist only through the exception handler (parser error -> None)
-        skip = _reach_without(g, parse[0], pub[0], fin[0])
-        rep.check(ok_var and ordered and not skip, rule, "%s._load publishes only the finalised document" % cname, "ok",
+        # value form: every definition of the published variable that reaches the store is either the constant None
+        # (parser error) or the parse result, and from the parse result every path to the store completes finalize()
+        # on that variable or re-binds it first
+        val = pub[0].ast.value
+        docvar = val.id if isinstance(val, ast.Name) else None
+        good = docvar is not None and unparse(fin[0].ast) == "%s.finalize()" % docvar
+        if good:
+            for d in reaching_defs(g, pub[0], docvar):
+                if d.kind == "entry":
+                    good = False
+                    break
+                dv = def_value(d, docvar)
+                if isinstance(dv, ast.Constant) and dv.value is None:
+                    continue
+                if d.id != parse[0].id:
+                    good = False
+                    break
+
+                def crossed(src, kind, dst, d=d):
+                    if src.id == fin[0].id and kind != "exc":
+                        return True
+                    return dst.id != d.id and docvar in node_defs(dst) and dst.id != pub[0].id
+                if reach_avoiding(g, d, pub[0], crossed):
+                    good = False
+        rep.check(good, rule, "%s._load publishes only the finalised document" % cname, "ok",
                   "%s._load can store the document in the shared table before (or without) finalize() completed: a concurrent load() "
                   "takes the fast path and returns an unresolved document" % cname, where(f, pub[0].ast),
                   witness="deferred_load(mid) then load(top) while mid's loader is inside finalize(): top merges an unresolved mid")
